@@ -55,6 +55,8 @@
 #include "Basic/NamingConvention.hpp"
 #include "Basic/Tensor.hpp"
 #include "Matrix/MatrixRectangular.hpp"
+#include "Matrix/MatrixSparse.hpp"
+#include "Db/DbGrid.hpp"
 #include "Matrix/MatrixSquareSymmetric.hpp"
 #include "geoslib_define.h"
 
@@ -131,6 +133,17 @@ static std::string run_covmat(const Sx& c) {
   { Model* m = makeModel(c[5], ndim, nvar); MatrixRectangular A = m->evalCovMatrixOptim(db1, db2, ivar0, jvar0, nbgh1, nbgh2, nullptr); o << matFull(A) << " "; delete m; }
   { Model* m = makeModel(c[5], ndim, nvar); MatrixSquareSymmetric A = m->evalCovMatrixSymmetric(db1, ivar0, nbgh1, nullptr); o << matFull(A) << " "; delete m; }
   { Model* m = makeModel(c[5], ndim, nvar); MatrixSquareSymmetric A = m->evalCovMatrixSymmetricOptim(db1, ivar0, nbgh1, nullptr); o << matFull(A) << " "; delete m; }
+  // sparse variants (threshold 0 and default threshold), densified; the C0 matrix used by the threshold
+  // regimes in which the sparse routine had defects of its own (repaired in 9ab956e20) are exercised by mode 14, not here
+  bool nonsquare = ((db2 == nullptr) && (ivar0 != jvar0 || nbgh1 != nbgh2)) || ivar0 > 0 || jvar0 > 0;
+  for (int pass = 0; pass < 2; pass++) {
+    if (nonsquare) { o << "() "; continue; }
+    Model* m = makeModel(c[5], ndim, nvar);
+    MatrixSparse* S = pass == 0 ? m->evalCovMatrixSparse(db1, db2, ivar0, jvar0, nbgh1, nbgh2, nullptr, 0.)
+                                : m->evalCovMatrixSparse(db1, db2, ivar0, jvar0, nbgh1, nbgh2, nullptr);
+    if (S == nullptr) o << "() "; else { o << matFull(*S) << " "; delete S; }
+    delete m;
+  }
   // point-wise covariance oracle: db1 x db2 and db1 x db1
   Model* m = makeModel(c[5], ndim, nvar);
   const Db* dd2 = db2 != nullptr ? db2 : db1;
@@ -316,7 +329,10 @@ static std::string run_ball(const Sx& c) {
   } else {
     for (int pass = 0; pass < 2; pass++) {
       Db* dbin = makeDb(c[3], ndim, 0); Db* dbout = makeDb(c[4], ndim, 0);
-      NeighMoving* nb = NeighMoving::create(false, (int) c[5][1].i(), c[5][2].d(TEST), (int) c[5][0].i());
+      // (nmini nmaxi radius leaf [nsect nsmax xvalid]) [coeffs angles]
+      int nsect = c[5].size() > 4 ? (int) c[5][4].i() : 1; int nsmax = c[5].size() > 5 ? (int) c[5][5].i() : ITEST; bool xv = c[5].size() > 6 && c[5][6].b();
+      VectorDouble coeffs, angles; if (c.size() > 6) { coeffs = c[6].vd(); angles = c[7].vd(); }
+      NeighMoving* nb = NeighMoving::create(xv, (int) c[5][1].i(), c[5][2].d(TEST), (int) c[5][0].i(), nsect, nsmax, coeffs, angles);
       if (pass == 1) nb->setBallSearch(true, (int) c[5][3].i());
       o << "(";
       if (nb->attach(dbin, dbout)) o << "-1";
@@ -444,8 +460,333 @@ static std::string run_calcul(const Sx& c) {
   return o.str();
 }
 
+// ---------------------------------------------------------------------------------------------- mode 8
+// KrigingCalcul: a SEQUENCE of setters / getters on one object; every answer is compared with a fresh object on which the same
+// setters were replayed (no getter in between).  (8 ndim nvar dbin dbout modelA modelB ops)
+struct KCPool {
+  std::vector<MatrixSquareSymmetric> Sigma, Sigma00; MatrixRectangular X;
+  std::vector<std::vector<MatrixRectangular>> Sigma0; std::vector<MatrixRectangular> X0;
+  std::vector<VectorDouble> Z, Zp, PriorMean; VectorDouble Means; VectorInt rankCol; MatrixSquareSymmetric PriorCov;
+  std::vector<VectorInt> xvEqs; VectorInt xvVars;
+};
+static int kcSet(KrigingCalcul& K, const KCPool& P, const Sx& op) {
+  int code = (int) op[0].i(), a = (int) op[1].i(), b = (int) op[2].i();
+  switch (code) {
+    case 0: return K.setData(&P.Z[a], &P.Means);
+    case 1: return K.setLHS(&P.Sigma[a], P.X.getNCols() > 0 ? &P.X : nullptr);
+    case 2: return K.setRHS(&P.Sigma0[b][a], P.X0[a].getNCols() > 0 ? &P.X0[a] : nullptr);
+    case 3: return K.setVar(&P.Sigma00[a]);
+    case 4: return a ? K.setColCokUnique(&P.Zp[b], &P.rankCol) : K.setColCokUnique(nullptr, nullptr);
+    case 5: return a ? K.setBayes(&P.PriorMean[b], &P.PriorCov) : K.setBayes(nullptr, nullptr);
+    case 6: return (a < (int) P.xvEqs.size()) ? K.setXvalidUnique(&P.xvEqs[a], &P.xvVars) : 1;
+  }
+  return -1;
+}
+static std::string kcGet(KrigingCalcul& K, int g) {
+  switch (g) {
+    case 0: return sx_vd(K.getEstimation());
+    case 1: return sx_vd(K.getStdv());
+    case 2: return sx_vd(K.getVarianceZstar());
+    case 3: return sx_vd(K.getPostMean());
+    case 4: { const MatrixRectangular* M = K.getLambda(); return M ? sx_vd(M->getValues()) : "()"; }
+    case 5: { const MatrixRectangular* M = K.getLambda0(); return M ? sx_vd(M->getValues()) : "()"; }
+    case 6: { const MatrixRectangular* M = K.getMu(); return M ? sx_vd(M->getValues()) : "()"; }
+    case 7: { const MatrixSquareSymmetric* M = K.getPostCov(); return M ? sx_vd(M->getValues()) : "()"; }
+  }
+  return "()";
+}
+static std::string run_kcseq(const Sx& c) {
+  int ndim = (int) c[1].i(), nvar = (int) c[2].i(); int nfex = (int) c[5][2].i();
+  defineDefaultSpace(ESpaceType::RN, ndim);
+  Db* dbin = makeDb(c[3], ndim, nfex); Db* dbout = makeDb(c[4], ndim, nfex);
+  int nt = dbout->getSampleNumber();
+  bool sk = c[5][1].i() < 0;
+  KCPool P;
+  P.Means = sk ? VectorDouble(c[5][3].vd()) : VectorDouble(nvar, 0.);
+  P.Sigma0.resize(2);
+  for (int im = 0; im < 2; im++) {
+    Model* model = makeModel(c[5 + im], ndim, nvar);
+    P.Sigma.push_back(model->evalCovMatrixSymmetric(dbin));
+    if (im == 0) P.X = model->evalDriftMatrix(dbin);
+    for (int it = 0; it < nt; it++) {
+      P.Sigma0[im].push_back(model->evalCovMatrix(dbin, dbout, -1, -1, VectorInt(), VectorInt{it}));
+      if (im == 0) P.X0.push_back(model->evalDriftMatrix(dbout, -1, VectorInt{it}, ECalcMember::RHS));
+    }
+    MatrixRectangular S00r = model->evalCovMatrix(dbout, dbout, -1, -1, VectorInt{0}, VectorInt{0});
+    P.Sigma00.push_back(MatrixSquareSymmetric(S00r));
+    delete model;
+  }
+  VectorDouble Z0 = dbin->getMultipleValuesActive(VectorInt(), VectorInt(), sk ? P.Means : VectorDouble());
+  VectorDouble Z1 = Z0; for (size_t i = 0; i < Z1.size(); i++) Z1[i] = -Z0[i] + 0.5 * (double) (i % 5);
+  P.Z.push_back(Z0); P.Z.push_back(Z1);
+  for (int k = 0; k < 2; k++) { VectorDouble zp(nvar); for (int v = 0; v < nvar; v++) zp[v] = 1.5 * (k + 1) - v; P.Zp.push_back(zp); }
+  P.rankCol = VectorInt{nvar - 1};
+  int nbfl = P.X.getNCols();
+  for (int k = 0; k < 2; k++) { VectorDouble pm(nbfl); for (int l = 0; l < nbfl; l++) pm[l] = 0.5 * (k + 1) + l; P.PriorMean.push_back(pm); }
+  P.PriorCov = MatrixSquareSymmetric(nbfl); for (int l = 0; l < nbfl; l++) P.PriorCov.setValue(l, l, 1. + l);
+  // cross-validation of one isotopic sample: the equations of all its variables
+  VectorVectorInt index = dbin->getMultipleRanksActive();
+  for (int v = 0; v < nvar; v++) P.xvVars.push_back(v);
+  for (int s = 0; s < dbin->getSampleNumber() && P.xvEqs.size() < 3; s++) {
+    VectorInt eqs; int off = 0; bool all = true;
+    for (int v = 0; v < nvar; v++) { auto itp = std::find(index[v].begin(), index[v].end(), s); if (itp == index[v].end()) { all = false; break; } eqs.push_back(off + (int) (itp - index[v].begin())); off += (int) index[v].size(); }
+    if (all) P.xvEqs.push_back(eqs);
+  }
+  std::ostringstream o; o << "(" << P.X.getNCols() << " " << (int) P.xvEqs.size() << " (";
+  {
+    KrigingCalcul K(false);
+    const Sx& ops = c[7];
+    int lastSetter = -1, lastErr = 0;
+    for (size_t k = 0; k < ops.size(); k++) {
+      int code = (int) ops[k][0].i();
+      if (code < 10) { lastErr = kcSet(K, P, ops[k]); lastSetter = code; continue; }
+      std::string vp = kcGet(K, code - 10);
+      KrigingCalcul F(false); int errF = 0;
+      for (size_t j = 0; j < k; j++) if (ops[j][0].i() < 10) errF = kcSet(F, P, ops[j]);
+      std::string vf = kcGet(F, code - 10);
+      o << "(" << k << " " << lastSetter << " " << (code - 10) << " " << lastErr << " " << errF << " " << vp << " " << vf << ")";
+    }
+  }
+  o << "))";
+  delete dbin; delete dbout;
+  return o.str();
+}
+
+// ---------------------------------------------------------------------------------------------- mode 9
+// KrigingCalcul options on fresh objects against the plain computations of KrigingSystem
+// (9 0 ndim nvar db model)                         setXvalidUnique  vs  kriging without the sample (explicit leave-one-out)
+// (9 1 ndim nvar dbin dbout model colvars secvals) setColCokUnique  vs  collocated cokriging of KrigingSystem
+// (9 2 ndim nvar dbin dbout model pmean pcovdiag)  setBayes         vs  kribayes (KrigingSystem, Bayesian drift)
+static std::string run_kcopt(const Sx& c) {
+  int sub = (int) c[1].i(), ndim = (int) c[2].i(), nvar = (int) c[3].i();
+  defineDefaultSpace(ESpaceType::RN, ndim);
+  std::ostringstream o; o << "(";
+  if (sub == 0) {
+    int nfex = (int) c[5][2].i(); bool sk = c[5][1].i() < 0; VectorDouble means = sk ? VectorDouble(c[5][3].vd()) : VectorDouble(nvar, 0.);
+    int n = (int) c[4][0][0].size();
+    Db* db = makeDb(c[4], ndim, nfex);
+    VectorVectorInt index = db->getMultipleRanksActive();
+    VectorInt vars; for (int v = 0; v < nvar; v++) vars.push_back(v);
+    for (int s = 0; s < n; s++) {
+      VectorInt eqs; int off = 0; bool all = db->isActive(s);
+      for (int v = 0; v < nvar && all; v++) { auto itp = std::find(index[v].begin(), index[v].end(), s); if (itp == index[v].end()) { all = false; break; } eqs.push_back(off + (int) (itp - index[v].begin())); off += (int) index[v].size(); }
+      if (!all) { o << "()"; continue; }
+      Model* model = makeModel(c[5], ndim, nvar);
+      MatrixSquareSymmetric Sigma = model->evalCovMatrixSymmetric(db);
+      MatrixRectangular X = model->evalDriftMatrix(db);
+      MatrixRectangular S00r = model->evalCovMatrix(db, db, -1, -1, VectorInt{s}, VectorInt{s});
+      MatrixSquareSymmetric Sigma00(S00r);
+      VectorDouble Z = db->getMultipleValuesActive(VectorInt(), VectorInt(), sk ? means : VectorDouble());
+      KrigingCalcul K(false);
+      int e1 = K.setData(&Z, &means), e2 = K.setLHS(&Sigma, X.getNCols() > 0 ? &X : nullptr), e3 = K.setVar(&Sigma00), e4 = K.setXvalidUnique(&eqs, &vars);
+      o << "(" << s << " " << (e1 || e2 || e3 || e4) << " " << sx_vd(K.getEstimation()) << " " << sx_vd(K.getStdv()) << " ";
+      // plain: the data base without the sample
+      std::vector<int> keep; for (int j = 0; j < n; j++) if (j != s) keep.push_back(j);
+      Sx din = subsetDb(c[4], keep); Sx dout = subsetDb(c[4], std::vector<int>{s}); dout.l[4].l.clear();
+      Db* dbin = makeDb(din, ndim, nfex); Db* dbout = makeDb(dout, ndim, nfex); Model* model2 = makeModel(c[5], ndim, nvar); ANeigh* neigh = NeighUnique::create();
+      KOpt k; k.c01dump = true;
+      o << krigeAll(dbin, dbout, model2, neigh, k, VectorInt{0}, nvar, ndim) << ")";
+      delete dbin; delete dbout; delete model2; delete neigh; delete model;
+    }
+    delete db;
+  } else {
+    int nfex = (int) c[6][2].i(); bool sk = c[6][1].i() < 0; VectorDouble means = sk ? VectorDouble(c[6][3].vd()) : VectorDouble(nvar, 0.);
+    Db* dbin = makeDb(c[4], ndim, nfex); Db* dbout = makeDb(c[5], ndim, nfex);
+    int nt = dbout->getSampleNumber();
+    // plain: KrigingSystem with the option
+    {
+      Db* din = makeDb(c[4], ndim, nfex); Db* dout = makeDb(c[5], ndim, nfex); Model* model = makeModel(c[6], ndim, nvar); ANeigh* neigh = NeighUnique::create();
+      int iptrEst = dout->addColumnsByConstant(nvar, TEST), iptrStd = dout->addColumnsByConstant(nvar, TEST), iptrVarZ = dout->addColumnsByConstant(nvar, TEST);
+      KrigingSystem ksys(din, dout, model, neigh);
+      bool ok = !ksys.updKrigOptEstim(iptrEst, iptrStd, iptrVarZ) && !ksys.setKrigOptCalcul(EKrigOpt::POINT, VectorInt(), false);
+      if (ok && sub == 1) {
+        VectorInt colcok(nvar, -1); VectorInt colvars = c[7].vi();
+        for (size_t q = 0; q < colvars.size(); q++) { VectorDouble v = c[8][q].vd(TEST); colcok[colvars[q]] = dout->addColumns(v, "sec" + std::to_string(q + 1)); }
+        ok = !ksys.setKrigOptColCok(colcok);
+      }
+      if (ok && sub == 2) {
+        VectorDouble pm = c[7].vd(); VectorDouble pd = c[8].vd();
+        MatrixSquareSymmetric pc((int) pd.size()); for (size_t l = 0; l < pd.size(); l++) pc.setValue((int) l, (int) l, pd[l]);
+        ok = !ksys.setKrigOptBayes(true, pm, pc);
+      }
+      ok = ok && ksys.isReady();
+      o << "(" << (ok ? 1 : 0) << " (";
+      if (ok) {
+        for (int it = 0; it < nt; it++) {
+          ksys.estimate(it);
+          o << "("; for (int ip : {iptrEst, iptrStd, iptrVarZ}) { o << "("; for (int v = 0; v < nvar; v++) o << (v ? " " : "") << sx_d(dout->getArray(it, ip + v)); o << ")"; }
+          o << " " << (ksys._lhs != nullptr && ksys._nred > 0 && ksys._lhs->getNRows() >= ksys._nred ? matStr(*ksys._lhs, ksys._nred, ksys._nred) : std::string("()")) << ")";
+        }
+        ksys.conclusion();
+      }
+      o << ")) ";
+      delete din; delete dout; delete model; delete neigh;
+    }
+    // fast: KrigingCalcul with the option, fresh object per target
+    o << "(";
+    for (int it = 0; it < nt; it++) {
+      Model* model = makeModel(c[6], ndim, nvar);
+      MatrixSquareSymmetric Sigma = model->evalCovMatrixSymmetric(dbin);
+      MatrixRectangular X = model->evalDriftMatrix(dbin);
+      MatrixRectangular Sigma0 = model->evalCovMatrix(dbin, dbout, -1, -1, VectorInt(), VectorInt{it});
+      MatrixRectangular X0 = model->evalDriftMatrix(dbout, -1, VectorInt{it}, ECalcMember::RHS);
+      MatrixRectangular S00r = model->evalCovMatrix(dbout, dbout, -1, -1, VectorInt{it}, VectorInt{it});
+      MatrixSquareSymmetric Sigma00(S00r);
+      VectorDouble Z = dbin->getMultipleValuesActive(VectorInt(), VectorInt(), sk ? means : VectorDouble());
+      KrigingCalcul K(false);
+      int err = K.setData(&Z, &means) || K.setLHS(&Sigma, X.getNCols() > 0 ? &X : nullptr) || K.setRHS(&Sigma0, X0.getNCols() > 0 ? &X0 : nullptr) || K.setVar(&Sigma00);
+      VectorDouble Zp(nvar, 0.), pm; VectorInt colvars; MatrixSquareSymmetric pc;
+      if (sub == 1) {
+        colvars = c[7].vi(); bool alldef = true;
+        for (size_t q = 0; q < colvars.size(); q++) { double v = c[8][q][it].d(TEST); if (FFFF(v)) alldef = false; Zp[colvars[q]] = v - means[colvars[q]]; }
+        if (!alldef) { o << "()"; delete model; continue; }
+        err = err || K.setColCokUnique(&Zp, &colvars);
+      } else {
+        pm = c[7].vd(); VectorDouble pd = c[8].vd();
+        pc = MatrixSquareSymmetric((int) pd.size()); for (size_t l = 0; l < pd.size(); l++) pc.setValue((int) l, (int) l, pd[l]);
+        err = err || K.setBayes(&pm, &pc);
+      }
+      o << "(" << err << " " << sx_vd(K.getEstimation()) << " " << sx_vd(K.getStdv()) << " " << sx_vd(K.getVarianceZstar());
+      if (sub == 2) o << " " << matFull(Sigma) << " " << matFull(X) << " " << matFull(Sigma0) << " " << matFull(X0) << " " << matFull(Sigma00) << " " << sx_vd(Z);
+      o << ")";
+      delete model;
+    }
+    o << ")";
+    delete dbin; delete dbout;
+  }
+  o << ")"; return o.str();
+}
+
+// ---------------------------------------------------------------------------------------------- mode 10
+// (10 ndim nvar db model ivar0 nbgh)  Model::evalDriftMatrix against DriftList::evalDriftValue cell by cell
+static std::string run_driftmat(const Sx& c) {
+  int ndim = (int) c[1].i(), nvar = (int) c[2].i(); int nfex = (int) c[4][2].i();
+  defineDefaultSpace(ESpaceType::RN, ndim);
+  Db* db = makeDb(c[3], ndim, nfex); Model* model = makeModel(c[4], ndim, nvar);
+  std::ostringstream o; o << "(";
+  for (int member = 0; member < 2; member++) {
+    MatrixRectangular M = model->evalDriftMatrix(db, (int) c[5].i(), c[6].vi(), member == 0 ? ECalcMember::LHS : ECalcMember::RHS);
+    o << matFull(M) << " ";
+  }
+  int nfeq = model->getDriftEquationNumber();
+  o << nfeq << " (";
+  for (int i = 0; i < db->getSampleNumber(); i++) { o << "("; for (int v = 0; v < nvar; v++) { o << "("; for (int ib = 0; ib < nfeq; ib++) o << (ib ? " " : "") << sx_d(model->evalDriftValue(db, i, v, ib, ECalcMember::LHS)); o << ")"; } o << ")"; }
+  o << "))";
+  delete db; delete model; return o.str();
+}
+
+// ---------------------------------------------------------------------------------------------- mode 11
+// (11 ndim nvar dbin (nx dx x0) model neigh ndiscs blex[ncell][ndim])
+// block kriging with per-cell extensions (flagPerCell, BLEX columns)  vs  for every cell, block kriging with the FIXED
+// discretisation on a one-cell grid whose mesh is the extension of that cell
+static std::string percellOne(Db* dbin, DbGrid* dbout, Model* model, ANeigh* neigh, const VectorInt& ndiscs, bool perCell, const VectorInt& targets, int nvar) {
+  std::ostringstream o;
+  int iptrEst = dbout->addColumnsByConstant(nvar, TEST), iptrStd = dbout->addColumnsByConstant(nvar, TEST);
+  KrigingSystem ksys(dbin, dbout, model, neigh);
+  bool ok = !ksys.updKrigOptEstim(iptrEst, iptrStd, -1) && !ksys.setKrigOptCalcul(EKrigOpt::BLOCK, ndiscs, perCell) && ksys.isReady();
+  o << "(" << (ok ? 1 : 0) << " (";
+  if (ok) {
+    for (int it : targets) {
+      ksys.estimate(it);
+      o << "(" << sx_vi(ksys._nbgh) << " ("; for (int v = 0; v < nvar; v++) o << (v ? " " : "") << sx_d(dbout->getArray(it, iptrEst + v));
+      o << ") ("; for (int v = 0; v < nvar; v++) o << (v ? " " : "") << sx_d(dbout->getArray(it, iptrStd + v));
+      o << ") " << (ksys._lhs != nullptr && ksys._nred > 0 && ksys._lhs->getNRows() >= ksys._nred ? matStr(*ksys._lhs, ksys._nred, ksys._nred) : std::string("()")) << ")";
+    }
+    ksys.conclusion();
+  }
+  o << "))";
+  return o.str();
+}
+static std::string run_percell(const Sx& c) {
+  int ndim = (int) c[1].i(), nvar = (int) c[2].i();
+  defineDefaultSpace(ESpaceType::RN, ndim);
+  auto mkneigh = [&]() { return c[6][0].i() == 0 ? (ANeigh*) NeighUnique::create() : (ANeigh*) mkMoving(ndim, (int) c[6][2].i(), c[6][3].d(TEST), (int) c[6][1].i()); };
+  VectorInt ndiscs = c[7].vi();
+  std::ostringstream o; o << "(";
+  // reference: one fixed-discretisation run per cell
+  int ncell; std::vector<VectorDouble> centres;
+  { DbGrid* g = DbGrid::create(c[4][0].vi(), c[4][1].vd(), c[4][2].vd()); ncell = g->getSampleNumber();
+    for (int i = 0; i < ncell; i++) { VectorDouble x(ndim); for (int d = 0; d < ndim; d++) x[d] = g->getCoordinate(i, d); centres.push_back(x); } delete g; }
+  o << "(";
+  for (int it = 0; it < ncell; it++) {
+    Db* dbin = makeDb(c[3], ndim, 0); Model* model = makeModel(c[5], ndim, nvar); ANeigh* neigh = mkneigh();
+    DbGrid* one = DbGrid::create(VectorInt(ndim, 1), c[8][it].vd(), centres[it]);
+    o << percellOne(dbin, one, model, neigh, ndiscs, false, VectorInt{0}, nvar);
+    delete dbin; delete one; delete model; delete neigh;
+  }
+  o << ") ";
+  { // fast: one run with per-cell extensions
+    Db* dbin = makeDb(c[3], ndim, 0); Model* model = makeModel(c[5], ndim, nvar); ANeigh* neigh = mkneigh();
+    DbGrid* dbout = DbGrid::create(c[4][0].vi(), c[4][1].vd(), c[4][2].vd());
+    for (int d = 0; d < ndim; d++) { VectorDouble col(ncell); for (int i = 0; i < ncell; i++) col[i] = c[8][i][d].d(); dbout->addColumns(col, "blex" + std::to_string(d + 1), ELoc::BLEX, d); }
+    VectorInt all; for (int i = 0; i < ncell; i++) all.push_back(i);
+    o << percellOne(dbin, dbout, model, neigh, ndiscs, true, all, nvar);
+    delete dbin; delete dbout; delete model; delete neigh;
+  }
+  o << ")"; return o.str();
+}
+
+// ---------------------------------------------------------------------------------------------- mode 12
+// (12 ndim nvar dbin dbout model neigh)  kriging with the pre-projection of the points (default) vs disabled on every structure
+static std::string run_optimoff(const Sx& c) {
+  int ndim = (int) c[1].i(), nvar = (int) c[2].i(); int nfex = (int) c[5][2].i();
+  defineDefaultSpace(ESpaceType::RN, ndim);
+  std::ostringstream o; o << "(";
+  for (int pass = 0; pass < 2; pass++) {
+    Db* dbin = makeDb(c[3], ndim, nfex); Db* dbout = makeDb(c[4], ndim, nfex); Model* model = makeModel(c[5], ndim, nvar);
+    if (pass == 1) for (int is = 0; is < model->getCovaNumber(); is++) model->getCova(is)->setOptimEnabled(false);
+    ANeigh* neigh = c[6][0].i() == 0 ? (ANeigh*) NeighUnique::create() : (ANeigh*) mkMoving(ndim, (int) c[6][2].i(), c[6][3].d(TEST), (int) c[6][1].i());
+    if (pass == 0) o << driftsStr(model) << " ";
+    KOpt k; k.c01dump = (pass == 1);
+    o << krigeAll(dbin, dbout, model, neigh, k, allTargets(dbout), nvar, ndim) << (pass == 0 ? " " : "");
+    delete dbin; delete dbout; delete model; delete neigh;
+  }
+  o << ")"; return o.str();
+}
+
+// ---------------------------------------------------------------------------------------------- mode 13
+// (13 ndim nvar db ivar0 nbgh)  Db::getMultipleRanksActive for the 8 combinations (useSel useVerr useCoord), and variable by variable
+static std::string run_ranks(const Sx& c) {
+  int ndim = (int) c[1].i(), nvar = (int) c[2].i();
+  defineDefaultSpace(ESpaceType::RN, ndim);
+  Db* db = makeDb(c[3], ndim, 0);
+  int ivar0 = (int) c[4].i(); VectorInt nbgh = c[5].vi();
+  VectorInt ivars; if (ivar0 >= 0) ivars.push_back(ivar0); else for (int v = 0; v < nvar; v++) ivars.push_back(v);
+  std::ostringstream o; o << "(";
+  for (int combo = 0; combo < 8; combo++) {
+    bool us = combo & 1, uv = combo & 2, uc = combo & 4;
+    VectorVectorInt idx = db->getMultipleRanksActive(ivars, nbgh, us, uv, uc);
+    o << "(("; for (auto& l : idx) o << sx_vi(l); o << ") (";
+    for (int v : ivars) o << sx_vi(db->getRanksActive(nbgh, v, us, uv, uc));
+    o << "))";
+  }
+  o << ")"; delete db; return o.str();
+}
+
+// ---------------------------------------------------------------------------------------------- mode 14
+// (14 ndim nvar db1 model ivar0 jvar0 nbgh1 nbgh2)  evalCovMatrixSparse(db1, db1) on a layout that is not the symmetric one
+// (different variables or sub-lists for rows and columns): compared with the rectangular plain matrix
+static std::string run_sparse_nonsquare(const Sx& c) {
+  int ndim = (int) c[1].i(), nvar = (int) c[2].i();
+  defineDefaultSpace(ESpaceType::RN, ndim);
+  Db* db1 = makeDb(c[3], ndim, 0);
+  int ivar0 = (int) c[5].i(), jvar0 = (int) c[6].i(); VectorInt nbgh1 = c[7].vi(), nbgh2 = c[8].vi();
+  std::ostringstream o; o << "(";
+  { Model* m = makeModel(c[4], ndim, nvar); MatrixRectangular A = m->evalCovMatrix(db1, nullptr, ivar0, jvar0, nbgh1, nbgh2, nullptr); o << matFull(A) << " "; delete m; }
+  { Model* m = makeModel(c[4], ndim, nvar); MatrixSparse* S = m->evalCovMatrixSparse(db1, nullptr, ivar0, jvar0, nbgh1, nbgh2, nullptr, 0.);
+    if (S == nullptr) o << "()"; else { o << matFull(*S); delete S; } delete m; }
+  o << ")"; delete db1; return o.str();
+}
+
 static std::string run(const Sx& c) {
   switch ((int) c[0].i()) {
+    case 14: return run_sparse_nonsquare(c);
+    case 8: return run_kcseq(c);
+    case 9: return run_kcopt(c);
+    case 10: return run_driftmat(c);
+    case 11: return run_percell(c);
+    case 12: return run_optimoff(c);
+    case 13: return run_ranks(c);
     case 1: return run_covmat(c);
     case 2: return run_unique_moving(c);
     case 3: return run_xvalid(c);
